@@ -589,7 +589,9 @@ type treeObs struct {
 	Status    bool     `json:"status"`
 	Mask      string   `json:"returned_mask"`
 	Changed   bool     `json:"state_changed_or_logs"`
-	AccNum    bool     `json:"global_account_number_moved"`
+	AccNum    bool     `json:"global_account_number_moved"` // a number was drawn that no account holds afterwards
+	AccSkip   int      `json:"account_numbers_drawn_and_held_by_no_account"`
+	AccNew    int      `json:"accounts_created"`
 	Logs      int      `json:"logs"`
 	DirectDif []string `json:"stores_changed_by_direct_execution"`
 	Gas       uint64   `json:"gas_limit"`
@@ -620,12 +622,24 @@ func (e *env) digests(ctx sdk.Context) map[string]string {
 	return out
 }
 
+// accNums says what became of the account numbers drawn from the auth module's global counter.
+//   Skipped: numbers drawn that no account holds afterwards. That is the trace evm.Call leaves when it creates an account
+//     for an account-less precompile address (the empty account is removed again at commit, its number is gone): the
+//     known finding, not an effect of any method.
+//   Created: numbers held by an account that did not exist before. That is a method's own, legitimate effect (the bank
+//     module creates the account of a recipient that had none: ERC-20 transfer / transferFrom to a fresh address; a
+//     module account used for the first time); the new account is part of the "acc" store digest, i.e. of "state changed".
+// The distinction is made on the store, by number, and does not look at the call tree or at any read-only flag.
+type accNums struct{ Skipped, Created int }
+
 // directExec applies the same message through the EVM keeper (no ante handler, no fee) on a cache of committed state and
 // returns the names of all KV stores whose content differs afterwards (the sender's sequence is put back first).
-func (e *env) directExec(sender *itutiltypes.TestAccount, to common.Address, data []byte, gas uint64) (changed []string, ret []byte, failed bool) {
+func (e *env) directExec(sender *itutiltypes.TestAccount, to common.Address, data []byte, gas uint64) (changed []string, nums accNums, ret []byte, failed bool) {
 	c := e.c
 	ctx := c.QueryCtx()
 	before := e.digests(ctx)
+	numBefore, err := c.App.AccountKeeper.AccountNumber.Peek(ctx)
+	require.NoError(e.t, err)
 	from := sender.GetEthAddress()
 	acc := c.App.AccountKeeper.GetAccount(ctx, from.Bytes())
 	seq := acc.GetSequence()
@@ -643,16 +657,25 @@ func (e *env) directExec(sender *itutiltypes.TestAccount, to common.Address, dat
 		}
 	}
 	sort.Strings(changed)
-	return changed, resp.Ret, resp.Failed()
+	numAfter, err := c.App.AccountKeeper.AccountNumber.Peek(ctx)
+	require.NoError(e.t, err)
+	require.GreaterOrEqual(e.t, numAfter, numBefore)
+	for id := numBefore; id < numAfter; id++ {
+		if _, err := c.App.AccountKeeper.Accounts.Indexes.Number.MatchExact(ctx, id); err != nil {
+			nums.Skipped++
+		} else {
+			nums.Created++
+		}
+	}
+	return changed, nums, resp.Ret, resp.Failed()
 }
 
 const sigAccNum = "C12/static/global-account-number-consumed-by-CALL-to-accountless-precompile"
 
-func splitAccNum(changed []string) (rest []string, accNum bool) {
+// dropAccNum takes the counter's pseudo store out of the list of changed stores (accNums says what the numbers went to).
+func dropAccNum(changed []string) (rest []string) {
 	for _, s := range changed {
-		if s == accNumStore {
-			accNum = true
-		} else {
+		if s != accNumStore {
 			rest = append(rest, s)
 		}
 	}
@@ -680,6 +703,20 @@ func TestDriverStatic(t *testing.T) {
 	cases := NewCases(dir, "From Coq Require Import List ZArith Bool.\nFrom Evm Require Import StaticCtx CorrStaticCtx.", "sc_mismatches")
 	idx := 0
 
+	// hx.Sidecar.Hit keeps the first 200 hits of a run and only counts the rest. The known finding fires for every
+	// tree with a successful CALL-opcode leaf under a STATICCALL (hundreds of times in the thorough tier), so it is
+	// recorded at most maxHitsPerSig times per signature: a later hit of another signature can never be crowded out.
+	// (every occurrence is still counted in the histogram, "oracle_hit_all:<signature>")
+	const maxHitsPerSig = 6
+	hitsOf := map[string]int{}
+	hit := func(sig, msg string, c interface{}) {
+		side.Count("oracle_hit_all:" + sig)
+		if hitsOf[sig] < maxHitsPerSig {
+			hitsOf[sig]++
+			side.Hit(sig, msg, c)
+		}
+	}
+
 	e := newEnv(t)
 	perEnv := 0
 	fresh := func() {
@@ -698,7 +735,7 @@ func TestDriverStatic(t *testing.T) {
 		for _, m := range ct.Methods {
 			rows = append(rows, fmt.Sprintf("Method %d 0x%s %s %s", ct.Type, hex.EncodeToString(m.Sel[:]), CqBool(m.RO), CqZu(m.Gas)))
 			if !m.RO && m.Gas == 0 {
-				side.Hit(fmt.Sprintf("C12/static/rw-method-zero-gas/%d:%x", ct.Type, m.Sel), "a state-changing method requires no gas", map[string]interface{}{"contract": ct.Addr.Hex(), "selector": hex.EncodeToString(m.Sel[:])})
+				hit(fmt.Sprintf("C12/static/rw-method-zero-gas/%d:%x", ct.Type, m.Sel), "a state-changing method requires no gas", map[string]interface{}{"contract": ct.Addr.Hex(), "selector": hex.EncodeToString(m.Sel[:])})
 			}
 			side.Count(fmt.Sprintf("table:type%d:%s", ct.Type, map[bool]string{true: "ro", false: "rw"}[m.RO]))
 		}
@@ -731,8 +768,15 @@ func TestDriverStatic(t *testing.T) {
 		}
 		sender := e.sender()
 		to := root.acct.GetEthAddress()
-		dchanged, dret, dfailed := e.directExec(sender, to, nil, gas)
-		dchanged, accNum := splitAccNum(dchanged)
+		dchanged, nums, dret, dfailed := e.directExec(sender, to, nil, gas)
+		dchanged = dropAccNum(dchanged)
+		accNum := nums.Skipped > 0
+		if nums.Created > 0 {
+			side.Count("tree_in_which_a_method_created_an_account")
+			if !accNum {
+				side.Count("tree_in_which_a_method_created_an_account:no_number_skipped")
+			}
+		}
 		before := e.projection(e.c.QueryCtx())
 		res := e.c.SendEth(sender, to, nil, gas)
 		require.Equal(t, uint32(0), res.Code, "transaction rejected before execution")
@@ -743,7 +787,7 @@ func TestDriverStatic(t *testing.T) {
 			mask = big.NewInt(0)
 		}
 		changed := before != after || len(res.Logs) > 0 || len(dchanged) > 0
-		o := treeObs{Tree: descTree(root), Group: group, Status: status, Mask: mask.Text(2), Changed: changed, AccNum: accNum, Logs: len(res.Logs), DirectDif: dchanged, Gas: gas, GasUsed: res.GasUsed}
+		o := treeObs{Tree: descTree(root), Group: group, Status: status, Mask: mask.Text(2), Changed: changed, AccNum: accNum, AccSkip: nums.Skipped, AccNew: nums.Created, Logs: len(res.Logs), DirectDif: dchanged, Gas: gas, GasUsed: res.GasUsed}
 		cases.Add(fmt.Sprintf("TreeCase (%s) %s %s %s %s", coqTree(root, true), CqBool(status), CqZ(mask), CqBool(changed), CqBool(accNum)))
 
 		// ---- direct oracle (property text), independent of the model
@@ -777,15 +821,15 @@ func TestDriverStatic(t *testing.T) {
 			}
 		}, nil)
 		if accNum && allProt {
-			side.Hit(sigAccNum, "a call tree whose precompile calls are all inside a STATICCALL advanced the auth module's global account number", o)
+			hit(sigAccNum, "a call tree whose precompile calls are all inside a STATICCALL advanced the auth module's global account number", o)
 		}
 		if offending != "" {
-			side.Hit("C12/static/"+offending, "a state-changing precompile method succeeded inside a read-only (STATICCALL) context", o)
+			hit("C12/static/"+offending, "a state-changing precompile method succeeded inside a read-only (STATICCALL) context", o)
 		} else if allProt && changed {
-			side.Hit("C12/static/state-or-logs-changed-under-STATICCALL", fmt.Sprintf("every precompile call of the tree is inside a STATICCALL, yet state changed or logs were emitted (stores changed by direct execution: %v, logs: %d)", dchanged, len(res.Logs)), o)
+			hit("C12/static/state-or-logs-changed-under-STATICCALL", fmt.Sprintf("every precompile call of the tree is inside a STATICCALL, yet state changed or logs were emitted (stores changed by direct execution: %v, logs: %d)", dchanged, len(res.Logs)), o)
 		}
 		if dfailed == status || status && string(dret) != string(res.Ret) {
-			side.Hit("C12/static/transaction-and-direct-execution-differ", "the same message returned different data as a transaction and through the EVM keeper", o)
+			hit("C12/static/transaction-and-direct-execution-differ", "the same message returned different data as a transaction and through the EVM keeper", o)
 		}
 		side.Count("group:" + group)
 		side.Count(fmt.Sprintf("status:%v", status))
@@ -928,8 +972,9 @@ func TestDriverStatic(t *testing.T) {
 				e.accrue() // withdrawals need pending rewards
 			}
 			gas := uint64(21000+16*len(pl)) + mm.m.Gas + 200_000
-			dchanged, _, _ := e.directExec(e.eoa, mm.ct.Addr, pl, gas)
-			dchanged, accNum := splitAccNum(dchanged)
+			dchanged, nums, _, _ := e.directExec(e.eoa, mm.ct.Addr, pl, gas)
+			dchanged = dropAccNum(dchanged)
+			accNum := nums.Skipped > 0
 			res := e.c.SendEth(e.eoa, mm.ct.Addr, pl, gas)
 			require.Equal(t, uint32(0), res.Code)
 			status := res.Status == 1
@@ -939,20 +984,21 @@ func TestDriverStatic(t *testing.T) {
 				mask = big.NewInt(1)
 			}
 			desc := map[string]interface{}{"kind": "direct", "contract": mm.ct.Addr.Hex(), "type": mm.ct.Type, "method": mm.m.Name, "read_only": mm.m.RO,
-				"status": status, "logs": logs, "stores_changed_by_direct_execution": dchanged, "gas_used": res.GasUsed, "require_gas": mm.m.Gas, "variant": variant}
+				"status": status, "logs": logs, "stores_changed_by_direct_execution": dchanged, "gas_used": res.GasUsed, "require_gas": mm.m.Gas, "variant": variant,
+				"account_numbers_drawn_and_held_by_no_account": nums.Skipped, "accounts_created": nums.Created}
 			changed := len(dchanged) > 0 || logs > 0
 			if mm.m.RO {
 				if accNum {
-					side.Hit(sigAccNum, "a call of a method declared read-only advanced the auth module's global account number", desc)
+					hit(sigAccNum, "a call of a method declared read-only advanced the auth module's global account number", desc)
 				}
 				if changed {
-					side.Hit(fmt.Sprintf("C12/static/ro-method-wrote-state/%d:%x", mm.ct.Type, mm.m.Sel), fmt.Sprintf("a method declared read-only changed stores %v / emitted %d logs in a non-static context", dchanged, logs), desc)
+					hit(fmt.Sprintf("C12/static/ro-method-wrote-state/%d:%x", mm.ct.Type, mm.m.Sel), fmt.Sprintf("a method declared read-only changed stores %v / emitted %d logs in a non-static context", dchanged, logs), desc)
 				}
 			} else if status && !changed {
 				side.Count("direct_rw_without_effect")
 			}
 			if res.GasUsed < 21000+mm.m.Gas {
-				side.Hit(fmt.Sprintf("C12/static/gas-not-charged/%d:%x", mm.ct.Type, mm.m.Sel), "the transaction used less gas than intrinsic + the method's declared cost", desc)
+				hit(fmt.Sprintf("C12/static/gas-not-charged/%d:%x", mm.ct.Type, mm.m.Sel), "the transaction used less gas than intrinsic + the method's declared cost", desc)
 			}
 			cases.Add(fmt.Sprintf("TreeCase (Cpc CALL false (Leaf 0%%nat %s true)) %s %s %s %s", CqBool(mm.m.RO), CqBool(status), CqZ(mask), CqBool(changed), CqBool(accNum)))
 			side.Count(fmt.Sprintf("direct:type%d:%s:%v", mm.ct.Type, mm.m.Name, status))
